@@ -49,6 +49,7 @@ func main() {
 	goarch := fs.String("goarch", "", "GOARCH")
 	mutant := fs.String("mutant", "", "internal: apply the named in-memory mutant (self-validation subprocess)")
 	jsonOut := fs.Bool("json", false, "internal: print obligations as JSON")
+	variant := fs.Bool("variant", false, "internal: build-variant subprocess (no extras)")
 	verbose := fs.Bool("v", false, "print every obligation")
 	replay := fs.String("replay", "", "replay file: re-run the rule it names")
 	_ = fs.Parse(os.Args[2:])
@@ -84,7 +85,7 @@ func main() {
 		}
 	}
 	m := runMeta{Tier: *tier, Seed: seed, Repo: *repo, VerifDir: verifDir, Started: time.Now(), CheckerCmd: exe}
-	m.WriteEv = !*noEv && *mutant == "" && *only == ""
+	m.WriteEv = !*noEv && *mutant == "" && *only == "" && !*variant
 	if *evDir != "" {
 		m.EvDir = *evDir
 	} else if filepath.Clean(*repo) == "/repo" {
@@ -137,7 +138,9 @@ func main() {
 	for _, pid := range ids {
 		p := registry[pid]
 		rep := runProperty(world, p, *only)
-		if *tier == "thorough" && *mutant == "" && *only == "" {
+		if *variant {
+			// subprocess for a build variant: rules only
+		} else if *tier == "thorough" && *mutant == "" && *only == "" {
 			thoroughExtras(world, p, rep, m)
 		} else if *mutant == "" && *only == "" {
 			quickExtras(world, p, rep, m)
